@@ -41,6 +41,9 @@ def dispatch(prop, tier):
     if prop == 'C17':
         from harness.checks import frontends
         return frontends.run_c17(tier)
+    if prop == 'C13':
+        from harness.checks import robust
+        return robust.run_c13(tier)
     raise core.Infra('no check registered for %s' % prop)
 
 
